@@ -119,11 +119,12 @@ fn unswept_spec(ctx: &Ctx, shards: usize) -> SeqSpec {
 /// A cache that is exactly as large as everything that can be demanded at once (three keys of weight 30, W = 90): keys
 /// come and go (deletes, expiries, re-puts with and without TTL); whatever the bookkeeping did with the departed lives,
 /// the live keys always fit and none may be lost.
-fn exact_fit_spec(ctx: &Ctx) -> SeqSpec {
+fn exact_fit_spec(ctx: &Ctx, colliding: bool) -> SeqSpec {
     let quick = ctx.quick();
     SeqSpec {
-        name: "seq/no-spurious-loss/exact-fit/W=90".into(),
-        setup: Setup { weight: 90, shards: 2, counters: 2, buffer: 1, weight_fn: WeightFn::Const { c: 30, ttl_extra: 0 }, ..Setup::default() },
+        // colliding: a user-supplied key hash under which every key has the same hash value
+        name: format!("seq/no-spurious-loss/exact-fit/W=90{}", if colliding { "/all-keys-one-hash" } else { "" }),
+        setup: Setup { weight: 90, shards: 2, counters: 2, buffer: 1, weight_fn: WeightFn::Const { c: 30, ttl_extra: 0 }, hash_fn: if colliding { HashFn::Constant(7) } else { HashFn::Identity }, ..Setup::default() },
         world: Default::default(),
         prefix: vec![],
         alphabet: vec![
@@ -135,6 +136,36 @@ fn exact_fit_spec(ctx: &Ctx) -> SeqSpec {
             Op::Delete { k: 2 },
             Op::Put { k: 3, w: Some(30), ttl_ms: None },
             Op::Advance { ms: 1000 },
+            Op::Advance { ms: 2000 },
+            Op::TickWait,
+            Op::ReadAll { keys: vec![1, 2, 3] },
+        ],
+        depth: if quick { 6 } else { 8 },
+        allow: None,
+        oracle: seq_oracle(),
+        keys: vec![1, 2, 3],
+        canon_sketch: true,
+        ghost_key: Some(ghost_key(false)),
+        max_states: if quick { 80_000 } else { 3_000_000 },
+        time_cap_s: if quick { 10.0 } else { 600.0 },
+    }
+}
+
+/// Several keys whose expiries fall into the same second (hence the same expiry shard) at different instants, and a clock
+/// that stops between them: a sweep removes the ones that are due and only those.
+fn same_second_spec(ctx: &Ctx) -> SeqSpec {
+    let quick = ctx.quick();
+    SeqSpec {
+        name: "seq/no-spurious-loss/expiries-within-one-second".into(),
+        setup: Setup { weight: 10_000, shards: 2, counters: 2, buffer: 1, weight_fn: WeightFn::Const { c: 30, ttl_extra: 24 }, ..Setup::default() },
+        world: Default::default(),
+        prefix: vec![],
+        alphabet: vec![
+            Op::Put { k: 1, w: Some(30), ttl_ms: Some(100) },
+            Op::Put { k: 2, w: Some(30), ttl_ms: Some(900) },
+            Op::Put { k: 3, w: Some(30), ttl_ms: Some(100) },
+            Op::Put { k: 1, w: Some(30), ttl_ms: Some(900) },
+            Op::Advance { ms: 500 },
             Op::Advance { ms: 2000 },
             Op::TickWait,
             Op::ReadAll { keys: vec![1, 2, 3] },
@@ -334,7 +365,9 @@ pub fn def(ctx: &Ctx) -> PropertyDef {
         let name = unswept_spec(ctx, shards).name;
         scenarios.push(seq_scenario(move |c| unswept_spec(c, shards), &name));
     }
-    scenarios.push(seq_scenario(exact_fit_spec, "seq/no-spurious-loss/exact-fit/W=90"));
+    scenarios.push(seq_scenario(|c| exact_fit_spec(c, false), "seq/no-spurious-loss/exact-fit/W=90"));
+    scenarios.push(seq_scenario(|c| exact_fit_spec(c, true), "seq/no-spurious-loss/exact-fit/W=90/all-keys-one-hash"));
+    scenarios.push(seq_scenario(same_second_spec, "seq/no-spurious-loss/expiries-within-one-second"));
     for shards in [2usize, 4] {
         for remove in [false, true] {
             let name = ttl_chain_spec(ctx, shards, remove).name;
